@@ -2,6 +2,8 @@
 import json
 import os
 import random
+import shutil
+import time
 
 from vlib import Ctx, Inconclusive, main_wrap, pick, SPEC, log
 
@@ -37,22 +39,41 @@ CONTENTS = ["rep", "rnd", "mix"]
 RCHUNKS = [0, 1, 7, 4096, 65536]
 
 
+def retry(fn, *a, **kw):
+    """Other checks add/remove files under spec/ and harness/ while vlib copies those trees; a copy that trips over a
+    vanished file is retried (it is an infrastructure hiccup, never a verdict)."""
+    for attempt in range(4):
+        try:
+            return fn(*a, **kw)
+        except (shutil.Error, OSError) as e:
+            log("[C13] retry after infrastructure error: %s" % str(e)[:200])
+            time.sleep(1 + attempt)
+    raise Inconclusive("infrastructure error persisted (concurrent modification of spec/ or harness/)")
+
+
 def write_cfg(name, **kw):
+    """Generator / sensitivity configurations are ordinary files of spec/ (rewritten only when their content differs and
+    never removed, so that concurrent checks copying spec/ are not disturbed)."""
     d = dict(DEFAULTS)
     d.update(kw)
     cfg = "WsWindow_%s.cfg" % name
-    with open(os.path.join(SPEC, cfg), "w") as f:
-        f.write(CFG_TMPL % d)
+    path = os.path.join(SPEC, cfg)
+    text = CFG_TMPL % d
+    try:
+        same = open(path).read() == text
+    except OSError:
+        same = False
+    if not same:
+        with open(path + ".tmp", "w") as f:
+            f.write(text)
+        os.replace(path + ".tmp", path)
     return cfg
 
 
 def gen(ctx, name, **kw):
     """Run a generator configuration (no VIEW, CONSTRAINT GenPrint): every complete path is one script."""
-    cfg = write_cfg("gen_" + name, constraint="CONSTRAINT GenPrint", **kw)
-    try:
-        r = ctx.l1("WsWindow", cfg, timeout=600)
-    finally:
-        os.remove(os.path.join(SPEC, cfg))
+    cfg = write_cfg("gen_%s_%s" % (name, "q" if ctx.quick() else "t"), constraint="CONSTRAINT GenPrint", **kw)
+    r = retry(ctx.l1, "WsWindow", cfg, timeout=900)
     out = []
     for s in r.printed:
         if isinstance(s, str) and s.startswith("SCRIPT "):
@@ -65,10 +86,7 @@ def sensitivity(ctx, name, expect, **kw):
     """A seeded model fault / weakened environment assumption must be caught by TLC (evidence that the
     specification is sensitive to exactly the mistakes the replay is meant to find)."""
     cfg = write_cfg("sens_" + name, view="VIEW StView", **kw)
-    try:
-        r = ctx.l1("WsWindow", cfg, must_hold=False, timeout=300)
-    finally:
-        os.remove(os.path.join(SPEC, cfg))
+    r = retry(ctx.l1, "WsWindow", cfg, must_hold=False, timeout=300)
     if r.violated != expect:
         raise Inconclusive("sensitivity run %s: expected violation of %s, TLC reported %s" % (name, expect, r.violated or r.error or "no error"))
     ctx.notes.append("model sensitivity: %s violates %s as expected" % (name, expect))
@@ -179,23 +197,22 @@ def run():
         "network backends (coder/gorilla/nhooyr sockets, quic-go) are not exercised",
     ]
     # ---- L1: exhaustive model checks
-    ctx.l1("WsWindow", "WsWindow_q.cfg")
-    ctx.l1("WsWindow", "WsWindowConc_q.cfg")
-    ctx.l1("StreamFraming", "StreamFraming_q.cfg")
+    retry(ctx.l1, "WsWindow", "WsWindow_q.cfg")
+    retry(ctx.l1, "WsWindow", "WsWindowConc_q.cfg")
+    retry(ctx.l1, "StreamFraming", "StreamFraming_q.cfg")
     if not q:
-        ctx.l1("WsWindow", "WsWindow_t.cfg", timeout=1200)
-        ctx.l1("WsWindow", "WsWindowConc_t.cfg", timeout=1200)
-        ctx.l1("StreamFraming", "StreamFraming_t.cfg")
+        retry(ctx.l1, "WsWindow", "WsWindow_t.cfg", timeout=1200)
+        retry(ctx.l1, "WsWindow", "WsWindowConc_t.cfg", timeout=1200)
+        retry(ctx.l1, "StreamFraming", "StreamFraming_t.cfg")
         # the window lock is redundant when the backend serialises writers
-        ctx.l1("WsWindow", write_cfg("nolock", view="VIEW StView", conc="TRUE", nwriters=2, classes="ClassesConc", winlock="FALSE"))
-        os.remove(os.path.join(SPEC, "WsWindow_nolock.cfg"))
+        retry(ctx.l1, "WsWindow", write_cfg("nolock", view="VIEW StView", conc="TRUE", nwriters=2, classes="ClassesConc", winlock="FALSE"))
         sensitivity(ctx, "nonexcl", "NoInterleave", conc="TRUE", nwriters=2, classes="ClassesConc", excl="FALSE")
         sensitivity(ctx, "nonexcl_decode", "HeadDecodable", conc="TRUE", nwriters=2, classes="ClassesConc", excl="FALSE",
                     invs="HeadDecodable NoDecodeFailure ReadEqualsWrite")
         sensitivity(ctx, "noTrimReader", "DictionariesEqual", fault="noTrimReader")
         sensitivity(ctx, "readerWPlus1", "DictionariesEqual", fault="readerWPlus1")
         sensitivity(ctx, "noTrimWriter", "WindowIsSuffix", fault="noTrimWriter")
-        r = ctx.l1("StreamFraming", "StreamFraming_nolock.cfg", must_hold=False)
+        r = retry(ctx.l1, "StreamFraming", "StreamFraming_nolock.cfg", must_hold=False)
         if r.violated != "FramingIntact":
             raise Inconclusive("StreamFraming without the send lock should violate FramingIntact, got %s" % (r.violated or r.error))
         ctx.notes.append("model sensitivity: StreamFraming without sendMu violates FramingIntact as expected")
@@ -228,16 +245,17 @@ def run():
     add("lazy", lazy, 60, bits_override=9)
     anyp = gen(ctx, "any", maxmsgs=3 if q else 4, policy="any")
     add("any", anyp, 100, bits_override=8)
-    add("any1", anyp, 40, bits_override=1)
+    add("any1", anyp, 40, 4000, bits_override=1)
     # gated concurrent writers: every interleaving of Writer()/encode/write/Close of two goroutines and the reader
     gated = gen(ctx, "gated", maxmsgs=2 if q else 3, conc="TRUE", nwriters=2, classes="ClassesOne" if q else "ClassesConc",
                 policy="any", modes="ModesPmCt" if not q else "ModesCt")
-    add("gated", gated, 120, fam="gated", bits_override=8)
+    add("gated", gated, 120, 25000, fam="gated", bits_override=8)
     scs += race_scenarios(ctx, 24 if q else 200, 16 if q else 120)
     scs += big_scenarios(ctx)
 
+    retry(ctx.build_harness)
     trace = ctx.run_scenarios(scs, "c13", par=8, timeout=1500)
-    verdicts, r = ctx.validate(trace, "MonC13", consts=MON_CONSTS, timeout=1200)
+    verdicts, r = retry(ctx.validate, trace, "MonC13", consts=MON_CONSTS, timeout=1200)
     for sc, v in list(verdicts.items()):
         if "ScriptNotEnabled" in v.get("bad", []):
             ctx.notes.append("%s: a scripted step was not enabled in the model (script/harness problem) -- not judged" % sc)
@@ -251,5 +269,14 @@ def run():
                exhaustive=not q)
 
 
+def run_guarded():
+    try:
+        run()
+    except (Inconclusive, SystemExit):
+        raise
+    except Exception as e:      # an orchestration error is never a verdict about the code
+        raise Inconclusive("orchestration error: %r" % (e,))
+
+
 if __name__ == "__main__":
-    main_wrap(run)
+    main_wrap(run_guarded)
